@@ -87,6 +87,24 @@ CLAIMS = {
         "slicing forms.",
    technique="shape-polymorphism (scalar vs array) dataflow + attribute-completeness and sharing rules (AST)",
    design="4 C08, 3.9"),
+ 'C02': dict(
+   text="Registration structure decided for all images/apertures: one overlap computation per aperture yields slices, weights and good-pixel "
+        "mask; sums, variances and overlap areas are taken with the large slices on exactly those pixels; NaN iff the box misses the image "
+        "(SPEC normal forms), variance mirrors the data expression (MIRROR), no ApertureMask/PixelAperture method modifies its stored "
+        "weights (A2), no state is carried between positions (LP1/LP1b), options incl. the NDData recursion are forwarded (FWD), x/y pairing "
+        "(T-AXIS), inputs never written (A1).",
+   note="Not decided: the numeric sums, linearity, and the overlap weights (C01). Statement normal forms are compared with accepted forms.",
+   technique="normal-form comparison of the photometry statements + alias/effect analysis + loop-carried dependence + option forwarding (AST)",
+   design="4 C02"),
+ 'C04': dict(
+   text="Detector structure decided for all inputs: labeller input is `data > threshold` and-ed with the inverse mask and labelled with the "
+        "von Neumann/Moore footprint; components with count < npixels are zeroed and kept labels/slices recorded together on every path; "
+        "relabel happens whenever something was pruned (raw kept labels -> 1..N, array dtype); the returned object is seeded with the final "
+        "array, labels and kept slices and only the two fast paths may seed; None only after a zero-count test, warning iff None; "
+        "detect_threshold = background + nsigma*error; options forwarded.",
+   note="Not decided: correctness of scipy.ndimage.label / find_objects (trusted external model).",
+   technique="normal-form comparison + path-event sets + who-may-write table + option forwarding (AST)",
+   design="4 C04"),
 }
 
 fix_commits = subprocess.run(['git', '-C', '/repo', 'log', '--format=%h %s', '8203d59..HEAD'],
